@@ -161,6 +161,35 @@ def selftest(ctx):
     return 0 if (ok and not ok2 and not ok3) else 1
 
 
+def user_stage(ctx, hist_path, n, thorough):
+    """A seeded sample of the exclusive-mode behaviours replayed through the public cesium
+    writer API (OpenWriter / SetAuthority / Write / Close on an index + data channel)."""
+    import random
+    with open(hist_path) as f:
+        lines = f.readlines()
+    rnd = random.Random(ctx.seed)
+    pick = rnd.sample(lines, min(n, len(lines)))
+    sp = ctx.path("user_sample.ndjson")
+    with open(sp, "w") as f:
+        f.writelines(pick)
+    out = ctx.path("user_out.ndjson")
+    rc, text, wall = ctx.go_test("cesium", ".", ["zz_verif_store_test.go", "zz_verif_ctl_test.go"], "^TestVerifControlUser$",
+                                 env={"VERIF_IN": sp, "VERIF_OUT": out}, tag="user", timeout=1500)
+    rows = ctx.read_ndjson(out)
+    if rc != 0 or not rows or not rows[0].get("summary"):
+        raise vlib.Inconclusive("user-level control harness failed rc=%s:\n%s" % (rc, text[-2000:]))
+    for b in rows[1:6]:
+        if b.get("r") != "mismatch":
+            raise vlib.Inconclusive("user-level harness inconclusive: %s" % b)
+        hist = json.loads(pick[b["i"]])
+        step = hist[b["step"]] if 0 <= b["step"] < len(hist) else {}
+        ctx.report("C05 user-level %s" % b["exp"].split("=")[0].split(" by ")[0],
+                   "cesium writers: after step %d (%s %s auth=%s) expected %s, real cesium gave %s" % (
+                       b["step"], step.get("a"), step.get("s"), step.get("auth"), b["exp"], b["act"]),
+                   {"history": hist, "kind": "user", "mismatch": b})
+    return rows[0]["replayed"]
+
+
 def run(ctx):
     thorough = ctx.tier == "thorough"
     states = trans = 0
@@ -231,9 +260,12 @@ def run(ctx):
             step.get("auth"), b["exp"], b["act"]),
             {"history": hist, "shared": shared, "mismatch": b,
              "cmd": "python3 tools/verif.py replay C05 <this file>"})
+    n_user = user_stage(ctx, ctx.path("gen_ex.ndjson"), 3000 if not thorough else 30000, thorough)
+    total += n_user
     rounds, events, tstates = concurrent_stage(ctx, thorough)
     cov = {
         "states": states, "transitions": trans,
+        "user_level_histories_replayed": n_user,
         "concurrent_rounds_validated": rounds, "concurrent_events": events, "trace_validation_states": tstates,
         "traces_validated_against_impl": total + rounds,
         "samples": samples,
